@@ -27,8 +27,11 @@ MANIFEST = dict(
          "under ExpAgree (run-time exponent = statically evaluated exponent) (C01_binop_agree_partial), and its lifting "
          "by induction to whole expression trees of the arithmetic fragment over a closed monomorphic environment "
          "(C01_expr_agree_partial: accepted => type is a variable-free dimension d and run-time unit dimension is "
-         "exactly d, never IncompatibleUnits); both closed under the global context; the static types come from the "
-         "solver proved sound in C02_solver_sound. NOT proved: let-programs, generic calls, conditionals, structs, "
+         "exactly d, never IncompatibleUnits), and to programs (C01_program_sound_partial: every accepted sequence of "
+         "let definitions and expression statements of the fragment over a growing monomorphic environment, including "
+         "re-bound names, runs without unit incompatibility and every global's run-time unit dimension equals its "
+         "reported type; a name resolves to its latest binding); all closed under the global context; the static types come from the "
+         "solver proved sound in C02_solver_sound. NOT proved: function definitions and calls, generic calls, conditionals, structs, "
          "lists (C01_sound_full : Prop). That part is decided on "
          "every run by an oracle on the real implementation: generated accepted programs (arithmetic with prefixes, "
          "integer/fractional/composite constant exponents, derived units and dimensions, generic and inferred "
@@ -41,7 +44,7 @@ MANIFEST = dict(
     technique="Coq proof (per-operator static/run-time agreement) + model correspondence + run-time oracle through hooks",
 )
 
-THEOREMS = ["C01_binop_agree_partial", "C01_expr_agree_partial"]
+THEOREMS = ["C01_binop_agree_partial", "C01_expr_agree_partial", "C01_program_sound_partial"]
 IMPORTS = ["Dim.Model", "Dim.Infer", "Dim.Exec", "Gen.PreludeDims"]
 
 # run-time error kinds that mean "went wrong dimensionally"
